@@ -857,9 +857,13 @@ func init() {
 		Run: runC17,
 		Notes: func() map[string]string {
 			loadFacts()
-			return map[string]string{"s3_package_state_rule": s3Note}
+			s6 := fmt.Sprintf("S6 armed: %d access announcements, every use of sync, sync/atomic and channels in the package is one of the modelled forms", facts.AccSites)
+			if !raceArmed() {
+				s6 = fmt.Sprintf("S6 switched off: access announcements=%d, blocking the scheduler does not model=%v, sync uses the race detector does not model=%v", facts.AccSites, facts.Unmodelled, facts.RaceUnmodelled)
+			}
+			return map[string]string{"s3_package_state_rule": s3Note, "s6_race_detector": s6}
 		},
-		Rule: "each case = 2..6 tasks (real goroutines) x 1..4 operations each, drawn from 43 operation kinds: read-only encoders/queries on ONE shared Map and ONE shared MapSeq, decodes of private documents (incl. a private simulated reader stream), and mutation of a private Copy of the shared Map; every operation is first executed alone (sequential reference, receiver digest checked after each: S5, Copy aliasing walk: S4) and then all tasks run under a cooperative scheduler that hands control over only at the ~430 generated yield points, following one of four seeded policies (preemption-bounded, PCT priorities, random switch, round-robin quantum); at EVERY yield the shared receivers' digest (S2) and the digest of every package-level variable (S3) are compared with their initial value, and afterwards every operation's result must equal its sequential result (S1). Each task has its own seeded map-iteration policy. Non-trivial = at some yield two tasks were simultaneously inside operations on the shared value; distinct = distinct (shared value, interleaving hash).",
+		Rule: "each case = 2..6 tasks (real goroutines) x 1..4 operations each, drawn from 43 operation kinds: read-only encoders/queries on ONE shared Map and ONE shared MapSeq, decodes of private documents (incl. a private simulated reader stream), and mutation of a private Copy of the shared Map; every operation is first executed alone (sequential reference, receiver digest checked after each: S5, Copy aliasing walk: S4) and then all tasks run under a cooperative scheduler that hands control over only at the ~430 generated yield points, following one of four seeded policies (preemption-bounded, PCT priorities, random switch, round-robin quantum); at EVERY yield the shared receivers' digest (S2) and the digest of every package-level variable (S3) are compared with their initial value, before every statement that touches a package-level variable a vector-clock detector checks that the access is ordered with the other tasks' accesses to it (S6, data race), and afterwards every operation's result must equal its sequential result (S1). Each task has its own seeded map-iteration policy. Non-trivial = at some yield two tasks were simultaneously inside operations on the shared value; distinct = distinct (shared value, interleaving hash).",
 		Assumptions: []string{
 			"scheduling points exist only in mxj's root package; the standard library runs atomically between them",
 			"while the package contains no synchronisation primitive, any write to package-level state from a decode/encode/query path is a data race (S3); when the instrumenter finds sync/go/select, S3 is switched off and the evidence says so",
